@@ -109,7 +109,26 @@ def r2(chk, prog):
                 keeps = [r for r in oc.walk() if r.get('k') == 'ReturnStmt' and children(r) and not (
                     strip_all_casts(children(r)[0]).get('k') == 'CXXBoolLiteralExpr' and
                     not strip_all_casts(children(r)[0]).get('val'))]
-                ok = bool(keeps) and all(any(ocfg.node_dominates(a, r) for a in sets) for r in keeps)
+                # a "keep" return that is reachable only when the file is known to be empty has nothing to take over:
+                # there the counter only has to restart with the generation (checked below)
+                from ..rules import implied_edges
+
+                def empty_test(op):
+                    def pred(c):
+                        if c.get('k') != 'BinaryOperator' or c.get('op') != op:
+                            return False
+                        a, b = [strip_all_casts(x) for x in children(c)]
+                        for x, y in ((a, b), (b, a)):
+                            if x.get('k') in CALL_KINDS and (x.get('callee') or '').endswith('::fileSize') and \
+                                    (y.get('val') == 0 or y.get('cv') == 0):
+                                return True
+                        return False
+                    return pred
+                empty_edges = implied_edges(oc, empty_test('=='), True) | implied_edges(oc, empty_test('!='), False)
+                nonempty = ocfg.reach(ocfg.entry_pos(), blocked_edges=empty_edges) if empty_edges else None
+                keeps = [r for r in keeps if nonempty is None or ocfg.position(r) in nonempty] if keeps else keeps
+                ok = (nonempty is not None and not keeps) or (
+                    bool(keeps) and all(any(ocfg.node_dominates(a, r) for a in sets) for r in keeps))
                 chk.check(ok, 'R2', oc.name, 'when the existing file is kept, progress counter %s is set from its state '
                           '(a restart continues a partly filled generation)' % cnt, oc.loc(),
                           'a path returns "keep the file" without assigning the counter in openCheck()')
